@@ -219,3 +219,9 @@ def canon_lexicon_part(s):
             e = w + ">" + ",".join(sorted(tags.split(",")))
         ents.append(e)
     return g + " # " + ";".join(sorted(ents))
+
+
+def canon_grammar(s):
+    """a grammar is a map (function, linearization, vertical context) -> count: the order in which a dict lists its entries
+    is not part of any property"""
+    return ";".join(sorted(s.split(";")))
